@@ -6,8 +6,11 @@ package main
 import (
 	"math"
 	"math/rand"
+	"runtime"
 	"sort"
 	"strings"
+	"sync"
+	"sync/atomic"
 
 	"github.com/unixpickle/model3d/model2d"
 	"github.com/unixpickle/model3d/model3d"
@@ -86,6 +89,7 @@ type voxelRecord struct {
 	Contains []containsObs `json:"contains"`
 	Multi    []multiObs    `json:"multi"`
 	Skipped  int           `json:"skipped"` // rays not put to the collider (see skipRay)
+	ConcBad  int           `json:"concbad"` // rays that were answered differently when four goroutines asked at once
 }
 
 var axisOther = [3][2]int{{1, 2}, {2, 0}, {0, 1}}
@@ -257,6 +261,53 @@ func voxColliders() []voxCollider {
 // and numbered from their own counter, so that the records of voxColliders() stay what they were.
 func voxColliders2() []voxCollider {
 	return []voxCollider{
+		// a joined collider that is a member of two parents: building the second parent must not change the first
+		{"JoinedShared", func(m *model3d.Mesh, rng *rand.Rand) model3d.Collider {
+			tris := m.TriangleSlice()
+			if len(tris) < 8 {
+				return model3d.MeshToCollider(m)
+			}
+			for try := 0; ; try++ {
+				rng.Shuffle(len(tris), func(i, j int) { tris[i], tris[j] = tris[j], tris[i] })
+				nrest := 1 + rng.Intn(2)
+				k := []int{3, 5, 6, 7}[rng.Intn(4)]
+				if k > len(tris)-nrest {
+					k = 3
+				}
+				// the "room": k members that together span the bounds of the whole surface
+				var members []model3d.Collider
+				per := (len(tris) - nrest) / k
+				for i := 0; i < k; i++ {
+					lo, hi := i*per, (i+1)*per
+					if i == k-1 {
+						hi = len(tris) - nrest
+					}
+					var cs []model3d.Collider
+					for _, t := range tris[lo:hi] {
+						cs = append(cs, t)
+					}
+					if len(cs) == 1 {
+						members = append(members, cs[0])
+					} else {
+						members = append(members, model3d.NewJoinedCollider(cs))
+					}
+				}
+				room := model3d.NewJoinedCollider(members)
+				if (room.Min() != m.Min() || room.Max() != m.Max()) && try < 50 {
+					continue
+				}
+				var rest []model3d.Collider
+				for _, t := range tris[len(tris)-nrest:] {
+					rest = append(rest, t)
+				}
+				first := model3d.NewJoinedCollider(append([]model3d.Collider{room}, rest...))
+				// a second parent of the room, with something else inside the same bounds
+				mid := m.Min().Mid(m.Max())
+				lamp := &model3d.Triangle{mid, mid.Add(model3d.XYZ(0.25, 0, 0.125)), mid.Add(model3d.XYZ(0, 0.25, 0.125))}
+				model3d.NewJoinedCollider([]model3d.Collider{room, lamp})
+				return first
+			}
+		}, false, nil, false},
 		// "To group the colliders, see GroupBounders()": the triangles as plain colliders; every other time in
 		// random order (grouping is documented as a matter of efficiency: "otherwise, the resulting Collider may not
 		// be efficient")
@@ -304,6 +355,48 @@ func runVoxelWorld(id int, vox [][3]int, vc voxCollider, rng *rand.Rand, nrays, 
 			rec.Rays = append(rec.Rays, observeRay(coll, tris, o, d, e, vc.interpNormals))
 			i++
 		}
+		// the same rays once more from four goroutines at once (every method of a Collider is documented as safe
+		// for concurrent use): each of them must be told what the single caller was told
+		var concBad int32
+		var wg sync.WaitGroup
+		for g := 0; g < 4; g++ {
+			wg.Add(1)
+			go func(g int) {
+				defer wg.Done()
+				for k := range rec.Rays {
+					r := rec.Rays[(k+7*g)%len(rec.Rays)]
+					sc := math.Ldexp(1, -r.E)
+					ray := &model3d.Ray{Origin: halfPt(r.O), Direction: model3d.XYZ(float64(r.D[0]), float64(r.D[1]), float64(r.D[2])).Scale(sc)}
+					var got []int
+					n := 0
+					if p := protect(func() {
+						n = coll.RayCollisions(ray, func(rc model3d.RayCollision) {
+							t4, _ := quarter(rc.Scale * sc)
+							got = append(got, t4)
+							runtime.Gosched()
+						})
+					}); p != "" {
+						atomic.AddInt32(&concBad, 1)
+						continue
+					}
+					want := make([]int, len(r.Hits))
+					for i, h := range r.Hits {
+						want[i] = h.T4
+					}
+					sort.Ints(want)
+					sort.Ints(got)
+					same := n == r.N && len(got) == len(want)
+					for i := 0; same && i < len(got); i++ {
+						same = got[i] == want[i]
+					}
+					if !same {
+						atomic.AddInt32(&concBad, 1)
+					}
+				}
+			}(g)
+		}
+		wg.Wait()
+		rec.ConcBad = int(concBad)
 		for i := 0; i < nsph; i++ {
 			c := randPt()
 			mrad := rng.Intn(6)
